@@ -55,7 +55,10 @@ func (s jsonSet) hashCode(metadata []Metadata) [8]byte {
 		hc := v.hashCode(metadata)
 		sMap[hc] = true
 	}
-	hashes := make(hashCodes, 0, len(sMap))
+	hashes := make(hashCodes, 0, len(sMap)+1)
+	// Start with a constant hash to distinguish an empty set from an
+	// empty string, and a set from an object with the same members.
+	hashes = append(hashes, [8]byte{0x37, 0xE2, 0x5B, 0x90, 0x1D, 0xC6, 0xA4, 0x6F}) // randomly chosen bytes
 	for hc := range sMap {
 		hashes = append(hashes, hc)
 	}
